@@ -58,7 +58,7 @@ class C06(Prop):
         nf = rng.choice((1, 1, 2))
         op = op or rng.choice(("collapse", "bandpass", "read_chan", "dedisperse", "dedisperse", "stats"))
         dm = 0.0
-        asc = False
+        asc = rng.random() < 0.3          # every reduction indexes channels in FILE order, whatever the band direction
         if op == "dedisperse":
             dm = rng.choice((0.0, 5.0, 20.0, 50.0, 110.0, -20.0, -60.0))
             asc = rng.random() < 0.35      # negative delays relative to fch1: ascending band at DM > 0, or DM < 0
